@@ -73,7 +73,7 @@ def _check(s):
     return r
 
 
-def full_column_rank(X, timeout_ms=20000):
+def full_column_rank(X, timeout_ms=60000):
     """returns (True, None) | (False, dependency vector as list of Fraction) | (None, None) on unknown"""
     X = exact(X)
     if not X or not X[0]:
@@ -102,7 +102,7 @@ def full_column_rank(X, timeout_ms=20000):
     return False, dep
 
 
-def span_contains(X, R, timeout_ms=20000):
+def span_contains(X, R, timeout_ms=60000):
     """is every column of R a linear combination of the columns of X?  returns (True|False|None, index of a
     column of R outside span(X) or None)"""
     X, R = exact(X), exact(R)
@@ -149,7 +149,7 @@ def span_contains(X, R, timeout_ms=20000):
     return None, 0
 
 
-def same_span(X, R, timeout_ms=20000):
+def same_span(X, R, timeout_ms=60000):
     a, ka = span_contains(X, R, timeout_ms)
     if a is None:
         return None, "unknown"
